@@ -173,6 +173,16 @@ Proof.
   rewrite (law_dropV E ck cq HL). cbn [orb]. apply wp_ret. simp_w. split; reflexivity.
 Qed.
 
+(* unwinding destructors under a lawful environment: log the identities *)
+Lemma unwind_pair_lawful p w :
+  wp (unwind_pair E p)
+     (fun _ w' => self w' = self w /\ logged w w' (ev_drops (idK E (fst p) ++ idV E (snd p))))
+     (fun _ => False) w.
+Proof.
+  unfold unwind_pair. apply wp_bind. apply wp_emit. apply wp_bind. apply wp_cbd_eq.
+  apply wp_bind. apply wp_cbd_eq. apply wp_ret. simp_w. split; reflexivity.
+Qed.
+
 (* ---- lookups ---- *)
 Lemma get_lawful q w :
   WF (self w) ->
